@@ -4,7 +4,7 @@
   * `placeOp`  : the noise-placement decision tree of `CompilerBase.compile` (graphiq/backends/compiler_base.py) together
                  with the two `_apply_additional_noise` helpers, as a function from one operation to its *action trace*;
   * `Mix.*`    : the additive noise models on a `MixedStabilizer` (graphiq/noise/noise_models.py,
-                 graphiq/backends/stabilizer/state.py) — `DepolarizingNoise` with its `p_i·factor > 0` filter and
+                 graphiq/backends/stabilizer/state.py) — `DepolarizingNoise` with its `factor > 0` filter and
                  `MixedStabilizer.reduce()` exactly as coded (it pops while enumerating), `PauliError`, `PhotonLoss`;
   * `DMx.*`    : the same noise models and the gates of `DensityMatrixCompiler.compile_one_gate` on an exact density matrix;
   * `assignNoise`, `unwrap`, `identifyNoise` : noise map → per-operation noise
@@ -216,16 +216,17 @@ def pauliGate (k : Nat) (t : Tab) (q : Nat) : Tab :=
 /-- `factors` of `DepolarizingNoise.apply` for one qubit -/
 def depolFactors (p : Rat) : List Rat := [1 - p, p / 3, p / 3, p / 3]
 
-/-- `DepolarizingNoise.apply` on a `MixedStabilizer`, `reg_list = [q]` -/
+/-- `DepolarizingNoise.apply` on a `MixedStabilizer`, `reg_list = [q]`: every branch is split into the Kraus terms whose
+    *factor* is positive (a branch of weight 0 is kept, so a lost photon no longer empties the mixture) -/
 def depolarize (p : Rat) (q : Nat) (m : Mixture) : Except Err Mixture :=
   let fs := depolFactors p
   let orig := total m
   let new : Mixture := m.flatMap fun (pi, ti) =>
     (List.range 4).filterMap fun k =>
       let f := fs.getD k 0
-      if 0 < pi * f then some (pi * f, (pauliGate k ti q).norm) else none
+      if 0 < f then some (pi * f, (pauliGate k ti q).norm) else none
   if total new ≠ orig then .error .value                 -- `np.isclose(sum, original_prob)` fails
-  else if new.isEmpty then .error .assertion             -- mixture setter: `len(set(n_qubits…)) == 1` (D37)
+  else if new.isEmpty then .error .assertion             -- mixture setter: `len(set(n_qubits…)) == 1` (only for an empty input)
   else .ok (reduce new.length new)
 
 def pauliError (k : PauliK) (q : Nat) (m : Mixture) : Except Err Mixture :=
